@@ -74,6 +74,8 @@ pub enum K {
     EventNew,
     AddEventFrom,
     UserPanic,
+    RootBurst,
+    ReplaceReporter,
 }
 
 #[derive(Clone)]
@@ -107,6 +109,13 @@ pub struct Profile {
     pub reporter_traces_pct: u64,
     pub no_reporter_pct: u64,
     pub teardown_early_pct: u64,
+    /// share of the runs that may contain one limit-overflow burst (expensive)
+    pub burst_pct: u64,
+    /// share of the Finish operations that release the span from an unwinding frame
+    pub unwind_finish_pct: u64,
+    /// share of the runs with many traces (12..41 instead of 2..7), so that one thread can start and
+    /// finish a long series of roots during one overload episode (many parked signals)
+    pub many_traces_pct: u64,
     /// swarm: operation kinds added on top of the property's own table for this run
     pub extra: &'static [(K, u64)],
 }
@@ -117,12 +126,12 @@ pub struct Profile {
 pub const SWARM_PCT: u64 = 15;
 const X_UNWIND: &[(K, u64)] = &[(K::UnwindScope, 4), (K::UserPanic, 3), (K::Collect, 2)];
 const X_EVENTS: &[(K, u64)] = &[(K::EventNew, 3), (K::AddEventFrom, 4), (K::LocalAddEvent, 3), (K::AddEvent, 3), (K::LocalAddProps, 3), (K::AddProps, 3)];
-const X_THREADS: &[(K, u64)] = &[(K::Exit, 4), (K::Join, 4), (K::Flush, 4), (K::Cycle, 3), (K::Sleep, 2)];
+const X_THREADS: &[(K, u64)] = &[(K::RootBurst, 3), (K::Exit, 4), (K::Join, 4), (K::Flush, 4), (K::Cycle, 3), (K::Sleep, 2)];
 const X_SCOPES: &[(K, u64)] = &[(K::StartCollector, 4), (K::Push, 3), (K::Collect, 2), (K::SetLocalParent, 4), (K::ChildLocal, 4), (K::Pop, 8)];
 const X_CTX: &[(K, u64)] = &[(K::CtxCurrent, 4), (K::CtxSpan, 4), (K::RootFromCtx, 3), (K::Noop, 2), (K::EmptyParents, 1), (K::Elapsed, 2)];
 const X_MIX: &[(K, u64)] = &[(K::UnwindScope, 2), (K::UserPanic, 2), (K::EventNew, 2), (K::AddEventFrom, 2), (K::Exit, 2), (K::Join, 2), (K::Flush, 2), (K::StartCollector, 2), (K::Push, 2), (K::CtxCurrent, 2)];
 const X_SETS: &[&[(K, u64)]] = &[&[], X_UNWIND, X_EVENTS, X_THREADS, X_SCOPES, X_CTX, X_MIX, X_MIX];
-const SMALL_RINGS: &[(u32, u64)] = &[(0, 2), (2, 2), (3, 1), (4, 2), (8, 1)];
+const SMALL_RINGS: &[(u32, u64)] = &[(0, 2), (2, 2), (3, 1), (4, 2), (8, 1), (16, 2), (32, 1)];
 
 pub fn is_swarm(seed: u64) -> bool {
     Rng::new(mix(seed ^ 0x5a3a_1157)).pct(SWARM_PCT)
@@ -163,6 +172,9 @@ pub fn swarm(p: &mut Profile, seed: u64) -> bool {
     if r.pct(20) {
         p.utf8_pct = p.utf8_pct.max(50);
     }
+    if r.pct(20) {
+        p.many_traces_pct = p.many_traces_pct.max(60);
+    }
     p.extra = X_SETS[r.below(X_SETS.len() as u64) as usize];
     true
 }
@@ -191,6 +203,7 @@ pub fn base_profile(prop: &'static str) -> Profile {
         ring_caps: &[(0, 8), (2, 1), (4, 1), (16, 1)],
         atomic_pct: 0,
         weights: &[
+            (K::ReplaceReporter, 1),
             (K::Root, 8),
             (K::Child, 10),
             (K::ChildLocal, 4),
@@ -222,16 +235,20 @@ pub fn base_profile(prop: &'static str) -> Profile {
         live_tail: true,
         late_reporter_pct: 0,
         noop_pct: 0,
-        task_wraps: &[Wrap::InSpan, Wrap::EnterOnPoll, Wrap::InSpanEnterOnPoll],
+        task_wraps: &[Wrap::InSpan, Wrap::EnterOnPoll, Wrap::InSpanEnterOnPoll, Wrap::InSpanCatch],
         reentrant_pct: 0,
         reporter_traces_pct: 0,
         no_reporter_pct: 0,
+        many_traces_pct: 0,
+        unwind_finish_pct: 8,
+        burst_pct: 4,
         extra: &[],
         teardown_early_pct: 0,
     }
 }
 
 const W_TREE: &[(K, u64)] = &[
+    (K::ReplaceReporter, 1),
     (K::UnwindScope, 3),
     (K::Root, 6),
     (K::Child, 12),
@@ -251,6 +268,7 @@ const W_TREE: &[(K, u64)] = &[
 ];
 
 const W_CANCELABLE: &[(K, u64)] = &[
+    (K::ReplaceReporter, 1),
     (K::Root, 8),
     (K::Child, 12),
     (K::ChildLocal, 4),
@@ -270,6 +288,8 @@ const W_CANCELABLE: &[(K, u64)] = &[
 ];
 
 const W_CANCEL: &[(K, u64)] = &[
+    (K::ReplaceReporter, 1),
+    (K::RootBurst, 2),
     (K::Root, 10),
     (K::Child, 10),
     (K::ChildLocal, 3),
@@ -427,6 +447,7 @@ const W_LAZY: &[(K, u64)] = &[
 ];
 
 const W_ASYNC: &[(K, u64)] = &[
+    (K::ReplaceReporter, 1),
     (K::Root, 9),
     (K::Child, 8),
     (K::NewTask, 10),
@@ -484,6 +505,7 @@ const W_API: &[(K, u64)] = &[
 ];
 
 const W_OVERLOAD: &[(K, u64)] = &[
+    (K::RootBurst, 3),
     (K::Root, 12),
     (K::Child, 10),
     (K::ChildLocal, 3),
@@ -519,6 +541,7 @@ const W_TWINS: &[(K, u64)] = &[
 ];
 
 const W_SETS: &[(K, u64)] = &[
+    (K::RootBurst, 2),
     (K::Root, 8),
     (K::Child, 10),
     (K::Finish, 12),
@@ -588,7 +611,9 @@ pub fn profile(prop: &str) -> Profile {
             prop: "C04",
             cancelable_pct: 70,
             weights: W_CANCEL,
-            ring_caps: &[(0, 5), (2, 1), (3, 1), (4, 1), (8, 1)],
+            ring_caps: &[(0, 5), (2, 1), (3, 1), (4, 1), (8, 1), (16, 1), (32, 1)],
+            many_traces_pct: 20,
+            stall_pct: 25,
             atomic_pct: 35,
             warm_pct: 70,
             live_tail: false,
@@ -682,7 +707,9 @@ pub fn profile(prop: &str) -> Profile {
             ops: (15, 80),
             cancelable_pct: 40,
             weights: W_OVERLOAD,
-            ring_caps: &[(2, 3), (3, 2), (4, 2), (8, 2), (16, 1), (0, 1)],
+            burst_pct: 8,
+            ring_caps: &[(2, 3), (3, 2), (4, 2), (8, 2), (16, 2), (32, 1), (0, 1)],
+            many_traces_pct: 25,
             stall_pct: 50,
             props_pct: 30,
             warm_pct: 60,
@@ -736,6 +763,10 @@ pub fn profile(prop: &str) -> Profile {
             callers: (0, 2),
             cancelable_pct: 25,
             weights: W_SETS,
+            // parents whose trace start was lost to a full queue receive their copies as stale spans
+            ring_caps: &[(0, 4), (2, 4), (3, 1), (4, 2), (8, 1)],
+            late_reporter_pct: 12,
+            many_traces_pct: 15,
             atomic_pct: 50,
             wallstep_pct: 50,
             props_pct: 40,
@@ -784,6 +815,7 @@ struct Gen<'a> {
     bursts: u32,
     burst_ok: bool,
     td_armed: std::collections::HashSet<u8>,
+    replaced: u32,
     in_poll: bool,
     cur_task: Option<Slot>,
 }
@@ -905,7 +937,7 @@ impl<'a> Gen<'a> {
                 5 => {
                     let slot = self.new_slot();
                     body.push(Op::ChildLocal { slot, props: 0 });
-                    body.push(Op::Finish { slot });
+                    body.push(Op::Finish { slot, unwind: false });
                 }
                 6 => {
                     body.push(Op::LocalEnter { props: 0 });
@@ -990,6 +1022,42 @@ impl<'a> Gen<'a> {
                     let inner = self.maybe_inner(props);
                     self.push_inner(t, Op::Root { slot, trace: tr, props }, inner)
                 }
+            }
+            K::ReplaceReporter => {
+                if t != 0 || self.replaced >= 2 {
+                    return false;
+                }
+                match self.model.reporter {
+                    // (two collector threads that never sleep would starve the callers under the
+                    // priority-based scheduling policies: an artefact of running one thread at a time)
+                    Some((_, 0)) => false,
+                    Some((cancelable, interval_ns)) => {
+                        self.replaced += 1;
+                        self.push(0, Op::ReplaceReporter { cancelable, interval_ns })
+                    }
+                    None => false,
+                }
+            }
+            K::RootBurst => {
+                // one thread starts and finishes a series of roots back to back
+                let avail = self.ntraces.saturating_sub(self.next_trace);
+                if avail < 3 {
+                    return false;
+                }
+                let k = (3 + self.rng.below(22) as usize).min(avail);
+                let keep_last = self.rng.pct(30);
+                for j in 0..k {
+                    let tr = self.next_trace as u8;
+                    self.next_trace += 1;
+                    let slot = self.new_slot();
+                    if !self.push(t, Op::Root { slot, trace: tr, props: 0 }) {
+                        return false;
+                    }
+                    if !(keep_last && j + 1 == k) {
+                        self.push(t, Op::Finish { slot, unwind: false });
+                    }
+                }
+                true
             }
             K::Noop => {
                 let slot = self.new_slot();
@@ -1120,7 +1188,8 @@ impl<'a> Gen<'a> {
                 } else {
                     *self.rng.pick(&live)
                 };
-                let ok = self.push(t, Op::Finish { slot });
+                let unwind = self.rng.pct(self.p.unwind_finish_pct);
+                let ok = self.push(t, Op::Finish { slot, unwind });
                 if ok && t != 0 && self.rng.pct(self.p.exit_after_finish_pct) {
                     self.push(t, Op::ThreadEnd);
                 }
@@ -1255,9 +1324,13 @@ impl<'a> Gen<'a> {
                 let ready = self.rng.pct(30);
                 self.in_poll = true;
                 self.cur_task = Some(task);
-                let body = self.gen_body();
+                let mut body = self.gen_body();
                 self.in_poll = false;
                 self.cur_task = None;
+                if wrap == Wrap::InSpanCatch && !ready && self.rng.pct(40) {
+                    // the body panics; the combinator between the two adapters contains it
+                    body.push(Op::BodyPanic);
+                }
                 self.push_inner(t, Op::Poll { task, kind, ready }, body)
             }
             K::DropTask => {
@@ -1375,9 +1448,23 @@ impl<'a> Gen<'a> {
                 if self.bursts >= 1 || !self.burst_ok {
                     return false;
                 }
+                // make it count: a scope with a local span open in it ...
+                if self.rng.pct(70) {
+                    if self.rng.pct(50) {
+                        self.try_kind(t, K::SetLocalParent);
+                    }
+                    self.try_kind(t, K::LocalEnter);
+                }
                 self.bursts += 1;
                 let n = 10240 - 3 + self.rng.below(8) as u32;
-                self.push(t, Op::LocalBurst { n })
+                let ok = self.push(t, Op::LocalBurst { n });
+                // ... and what the thread does right after the limit was hit
+                for k in [K::CtxCurrent, K::ChildLocal, K::LocalEnter, K::LocalAddEvent, K::CtxCurrent, K::Pop] {
+                    if self.rng.pct(55) {
+                        self.try_kind(t, k);
+                    }
+                }
+                ok
             }
             K::ScopeBurst => {
                 if self.bursts >= 1 || !self.burst_ok {
@@ -1516,7 +1603,7 @@ pub fn generate_with(p: &Profile, seed: u64) -> Case {
     let mut rng = Rng::new(seed);
     let callers = p.callers.0 + rng.below(p.callers.1 - p.callers.0 + 1);
     let nthreads = 1 + callers as usize;
-    let ntraces = 2 + rng.below(6) as usize;
+    let ntraces = if rng.pct(p.many_traces_pct) { 12 + rng.below(30) as usize } else { 2 + rng.below(6) as usize };
     let traces = gen_traces(&mut rng, ntraces, p.unsampled_pct);
     let str_seed = if rng.pct(p.utf8_pct) { rng.next() | 1 } else { 0 };
     let interval = *rng.pick(p.intervals);
@@ -1537,15 +1624,17 @@ pub fn generate_with(p: &Profile, seed: u64) -> Case {
         in_poll: false,
         cur_task: None,
         td_armed: Default::default(),
+        replaced: 0,
     };
     // limit-overflow bursts are expensive (10k spans / 4k scopes): a few per cent of the runs
-    g.burst_ok = g.rng.pct(4);
+    g.burst_ok = g.rng.pct(p.burst_pct);
     let late = g.rng.pct(p.late_reporter_pct);
     if late {
         // a few operations before any reporter exists (they must all be inert)
-        let n = 1 + g.rng.below(6);
+        let n = 1 + g.rng.below(9);
         for _ in 0..n {
-            let k = *g.rng.pick(&[K::Root, K::LocalEnter, K::Pop, K::ChildLocal, K::LocalAddEvent, K::CtxCurrent]);
+            // (a LocalCollector works without a reporter: what it captures now can be pushed later)
+            let k = *g.rng.pick(&[K::Root, K::LocalEnter, K::Pop, K::ChildLocal, K::LocalAddEvent, K::CtxCurrent, K::StartCollector, K::StartCollector, K::LocalEnter, K::LocalAddProps, K::Pop]);
             g.try_kind(0, k);
         }
     }
@@ -1587,7 +1676,7 @@ pub fn generate_with(p: &Profile, seed: u64) -> Case {
             g.next_trace += 1;
             let slot = g.new_slot();
             g.push(t, Op::Root { slot, trace: tr, props: 0 });
-            g.push(t, Op::Finish { slot });
+            g.push(t, Op::Finish { slot, unwind: false });
         }
     }
     let total_w: u64 = p.weights.iter().chain(p.extra.iter()).map(|(_, w)| *w).sum();
@@ -1617,7 +1706,7 @@ pub fn generate_with(p: &Profile, seed: u64) -> Case {
         if g.rng.pct(90) {
             let act = g.active_threads();
             let t = *g.rng.pick(&act);
-            g.push(t, Op::Finish { slot: s });
+            g.push(t, Op::Finish { slot: s, unwind: false });
         }
     }
     for t in 1..nthreads as u8 {
